@@ -67,6 +67,18 @@ func KVMetadataToProto(md *store.KVMetadata) *KVMetadata {
 }
 
 func TxFromProto(stx *Tx) *store.Tx {
+	// messages come from the wire: sub-messages may be missing and the declared
+	// number of entries may not match the entries actually sent
+	if stx == nil || stx.Header == nil || int64(stx.Header.Nentries) != int64(len(stx.Entries)) {
+		return nil
+	}
+
+	for _, e := range stx.Entries {
+		if e == nil {
+			return nil
+		}
+	}
+
 	header := &store.TxHeader{}
 	header.ID = stx.Header.Id
 	header.Ts = stx.Header.Ts
@@ -121,6 +133,10 @@ func InclusionProofToProto(iproof *htree.InclusionProof) *InclusionProof {
 }
 
 func InclusionProofFromProto(iproof *InclusionProof) *htree.InclusionProof {
+	if iproof == nil {
+		return nil
+	}
+
 	return &htree.InclusionProof{
 		Leaf:  int(iproof.Leaf),
 		Width: int(iproof.Width),
@@ -211,6 +227,10 @@ func LinearAdvanceProofToProto(proof *store.LinearAdvanceProof) *LinearAdvancePr
 }
 
 func DualProofFromProto(dproof *DualProof) *store.DualProof {
+	if dproof == nil {
+		return nil
+	}
+
 	return &store.DualProof{
 		SourceTxHeader:     TxHeaderFromProto(dproof.SourceTxHeader),
 		TargetTxHeader:     TxHeaderFromProto(dproof.TargetTxHeader),
@@ -224,6 +244,10 @@ func DualProofFromProto(dproof *DualProof) *store.DualProof {
 }
 
 func DualProofV2FromProto(dproof *DualProofV2) *store.DualProofV2 {
+	if dproof == nil {
+		return nil
+	}
+
 	return &store.DualProofV2{
 		SourceTxHeader:   TxHeaderFromProto(dproof.SourceTxHeader),
 		TargetTxHeader:   TxHeaderFromProto(dproof.TargetTxHeader),
@@ -233,6 +257,10 @@ func DualProofV2FromProto(dproof *DualProofV2) *store.DualProofV2 {
 }
 
 func TxHeaderFromProto(hdr *TxHeader) *store.TxHeader {
+	if hdr == nil {
+		return nil
+	}
+
 	return &store.TxHeader{
 		ID:       hdr.Id,
 		PrevAlh:  DigestFromProto(hdr.PrevAlh),
@@ -262,6 +290,10 @@ func TxMetadataFromProto(md *TxMetadata) *store.TxMetadata {
 }
 
 func LinearProofFromProto(lproof *LinearProof) *store.LinearProof {
+	if lproof == nil {
+		return nil
+	}
+
 	return &store.LinearProof{
 		SourceTxID: lproof.SourceTxId,
 		TargetTxID: lproof.TargetTxId,
@@ -276,6 +308,10 @@ func LinearAdvanceProofFromProto(laproof *LinearAdvanceProof) *store.LinearAdvan
 
 	inclusionProofs := make([][][sha256.Size]byte, len(laproof.InclusionProofs))
 	for i, proof := range laproof.InclusionProofs {
+		if proof == nil {
+			continue
+		}
+
 		inclusionProofs[i] = DigestsFromProto(proof.Terms)
 	}
 
